@@ -869,7 +869,18 @@ def pipeline_part(ctx, pre_obj, DP, AIO, S, f_gene, f_ra, f_basic, cgene, cra, c
             ctx.count(evaluations=len(f1), nontrivial=len(f1))
             if bad: ctx.violation(None, "a run restarted from saved assignments does not reproduce the outputs of the run that saved them (%s)" % tag, {"arguments": args, "differences": bad[:10]})
             return len(f1)
-        runs = [("no grouping", []), ("grouping by read id", ["--read_group", "read_id:_"])] + ([] if quick else [("count_exons + sqanti", ["--count_exons", "--sqanti_output"])])
+        # a read group table that matches the read names of the BAM file (the bundled table matches none): three groups, some reads without a group
+        import pysam
+        table = os.path.join(d, "in", "groups_by_table.tsv"); names = []
+        with pysam.AlignmentFile(inp["bam"]) as bam_:
+            for a_ in bam_:
+                if a_.query_name not in names: names.append(a_.query_name)
+        with open(table, "w") as f_:
+            for k_, n_ in enumerate(names):
+                if k_ % 7 != 6: f_.write("%s\t%s\n" % (n_, ("alpha", "beta", "gamma")[k_ % 3]))
+        TABLE = "grouping by a table (--read_group file:<table>)"
+        runs = [("no grouping", []), ("grouping by read id", ["--read_group", "read_id:_"]), (TABLE, ["--read_group", "file:%s" % table])] + \
+               ([] if quick else [("count_exons + sqanti", ["--count_exons", "--sqanti_output"])])
         first_save = None; first_saved_files = None
         for tag, extra in runs:
             o1 = os.path.join(d, "run1_" + str(len(tag))); o2 = os.path.join(d, "run2_" + str(len(tag)))
@@ -881,7 +892,18 @@ def pipeline_part(ctx, pre_obj, DP, AIO, S, f_gene, f_ra, f_basic, cgene, cra, c
             a2 = base + ["--read_assignments", save] + extra
             rc2, log2 = P.run_isoquant(o2, a2); ctx.cov["pipeline_runs"] += 1
             if rc2 != 0:
-                ctx.violation(None, "a run restarted with --read_assignments fails (%s)" % tag, {"arguments": a2, "exit": rc2, "log_tail": log2[-1500:]}); continue
+                # known finding C15:reuse-with-group-file, matched by its structure only (code before fixes/C15_reuse_skips_group_table_split.diff): the restart with a
+                # group TABLE aborts in process_sample -> prepare_read_groups -> split_read_group_table opening the save prefix as a BAM file, the saved files all
+                # still being there; every other failure of a restart is a new violation
+                saved_now = sorted(os.path.basename(x) for x in glob.glob(save + "_*"))
+                structural = tag == TABLE and "prepare_read_groups" in log2 and "split_read_group_table" in log2 and "pysam.AlignmentFile" in log2 and save in log2.split("split_read_group_table")[-1] \
+                             and len(saved_now) > 0 and saved_now == saved_files
+                if structural:
+                    ctx.violation("C15:reuse-with-group-file", "--read_assignments together with --read_group file:<table> aborts: prepare_read_groups opens the save prefix as a BAM file",
+                                  {"history": ["run with --keep_tmp --read_group file:<table>", "restart with --read_assignments and the same --read_group"], "arguments": a2, "exit": rc2, "log_tail": log2[-1200:]})
+                else:
+                    ctx.violation(None, "a run restarted with --read_assignments fails (%s)" % tag, {"arguments": a2, "exit": rc2, "saved_files_after_the_saving_run": saved_files, "saved_files_now": saved_now, "log_tail": log2[-1500:]})
+                continue
             def prefix_of(o): return [x for x in os.listdir(o) if os.path.isdir(os.path.join(o, x)) and os.path.isdir(os.path.join(o, x, "aux"))][0]
             n = compare(tag, o1, "S", o2, prefix_of(o2), a2)
             ctx.notes.append("reuse (%s): %d output files identical up to '# ' header lines" % (tag, n))
@@ -899,23 +921,6 @@ def pipeline_part(ctx, pre_obj, DP, AIO, S, f_gene, f_ra, f_basic, cgene, cra, c
                 ctx.violation(None, "a run restarted with --read_assignments removes or adds files of the saved assignments it was given (%s)" % tag,
                               {"history": history, "arguments": a2, "saved_files_after_the_saving_run": saved_files, "saved_files_after_the_restarts": saved_after})
             ctx.notes.append("second reuse (%s): %d output files identical; %d saved files untouched" % (tag, n, len(saved_after)))
-        # known finding #19: --read_assignments together with --read_group file:...
-        if first_save:
-            o3 = os.path.join(d, "run3"); a3 = base + ["--read_assignments", first_save, "--read_group", "file:%s" % inp["groups"]]
-            rc3, log3 = P.run_isoquant(o3, a3); ctx.cov["pipeline_runs"] += 1
-            if rc3 != 0:
-                # the known finding is matched by its structure only: the saved files are all still there AND the traceback is the one of prepare_read_groups
-                # opening the save prefix as a BAM file; any other failure of this run is a new violation under its own description
-                saved_now = sorted(os.path.basename(x) for x in glob.glob(first_save + "_*"))
-                structural = "--read_assignments" in a3 and any(x.startswith("file:") for x in a3) and "split_read_group_table" in log3 and "pysam.AlignmentFile" in log3 and first_save in log3.split("split_read_group_table")[-1] \
-                             and len(saved_now) > 0 and saved_now == first_saved_files
-                if structural:
-                    ctx.violation("C15:reuse-with-group-file", "--read_assignments together with --read_group file:<table> aborts: prepare_read_groups opens the save prefix as a BAM file", {"arguments": a3, "exit": rc3, "log_tail": log3[-1200:]})
-                else:
-                    ctx.violation(None, "a run restarted with --read_assignments (and --read_group file:<table>) fails, and not in the way of the known finding C15:reuse-with-group-file (saved files still present: %d of %d)" % (len(saved_now), len(first_saved_files)),
-                                  {"arguments": a3, "exit": rc3, "saved_files_after_the_saving_run": first_saved_files, "saved_files_now": saved_now, "log_tail": log3[-1200:]})
-            else:
-                ctx.notes.append("--read_assignments with --read_group file: completed (finding #19 not reproduced)")
         # the files of the real run against the model
         if first_save:
             cases = []
@@ -944,7 +949,7 @@ def pipeline_part(ctx, pre_obj, DP, AIO, S, f_gene, f_ra, f_basic, cgene, cra, c
                               {"file": os.path.basename(path), "size": len(data), "groups": len(full), "assignments": sum(len(x[1]) for x in full)}))
                 del ld, lq; gc.collect()
             ctx.rule("pipeline: three-step histories on the bundled data - IsoQuant with --keep_tmp, then with --read_assignments <aux>/S.save, then once more with --read_assignments on the same saved files "
-                     "(without grouping and with --read_group read_id:_): every output file of both restarts compared byte for byte with the saving run except '# ' header lines, the set of saved files must be unchanged; the <save>_chr* and <save>_multimappers_* files of the real run are decoded by the model, re-encoded to the same bytes and compared with what both real loaders return")
+                     "(without grouping, with --read_group read_id:_ and with --read_group file:<table> for a table that matches the read names of the BAM file, three groups): every output file, the grouped count tables included, of both restarts compared byte for byte with the saving run except '# ' header lines, the set of saved files must be unchanged; the <save>_chr* and <save>_multimappers_* files of the real run are decoded by the model, re-encoded to the same bytes and compared with what both real loaders return")
             mism, viol = ctx.corr("pipeline_save_files", pre_obj, cases, shard=1, timeout=900)
             ctx.corr_report("pipeline_save_files", mism, viol)
     finally:
